@@ -335,3 +335,30 @@ func (a PacketSig) Equal(b PacketSig) (bool, string) {
 	}
 	return true, ""
 }
+
+// DiffLayer names the layer type at the first position where two packet signatures differ (preferring a real layer
+// type over DecodeFailure); "" when the layers agree.
+func DiffLayer(a, b PacketSig) string {
+	n := len(a.Types)
+	if len(b.Types) > n {
+		n = len(b.Types)
+	}
+	for i := 0; i < n; i++ {
+		var ta, tb, la, lb string
+		if i < len(a.Types) {
+			ta, la = a.Types[i], a.Layers[i]
+		}
+		if i < len(b.Types) {
+			tb, lb = b.Types[i], b.Layers[i]
+		}
+		if ta != tb || la != lb {
+			for _, t := range []string{ta, tb} {
+				if t != "" && t != "DecodeFailure" {
+					return strings.ReplaceAll(t, " ", "_")
+				}
+			}
+			return "DecodeFailure"
+		}
+	}
+	return ""
+}
